@@ -1451,6 +1451,8 @@ class Interp:
                 return self.call(BUILTINS[fv.name], args, kwargs)
         if is_z3(fv) and '__call_symbolic__' in self.globals:
             return self.globals['__call_symbolic__'](self, fv, args, kwargs)
+        if isinstance(fv, PObj) and '__call__' in fv.methods:
+            return self.call(fv.methods['__call__'], [fv] + list(args), kwargs)
         if callable(fv) and not is_z3(fv):
             return fv(self, *args, **kwargs)
         raise Unsupported("call of %r" % (fv,))
